@@ -64,6 +64,7 @@ def _case(draw):
         "ushocks": [list(x) for x in ushocks], "ashocks": [list(x) for x in ashocks],
         "mshocks": [list(x) for x in mshocks],
         "split": draw(st.integers(1, 11)),
+        "split_frames": draw(st.sampled_from([False, False, True])),
     }
 
 
@@ -73,6 +74,8 @@ def _classify(case):
     u, a = sd.effective_shocks(spec, case["ushocks"], case["ashocks"])
     labels = ["log_rendering" if spec["log"] else "additive_rendering",
               "deviation" if case["deviation"] else "levels"]
+    if case.get("split_frames"):
+        labels.append("force_split_frames")
     if a:
         labels.append("has_anticipated")
     if len({x[1] for x in u}) >= 2:
@@ -189,7 +192,9 @@ def _check(case):
 
     db = make_db(dev)
     span = start >> (start + T - 1)
-    P = api("simulate", m.simulate, db, span, method="first_order", deviation=dev)
+    # force_split_frames=True (non-default): one frame per surprise instead of a single frame; same statement
+    fsf = {"force_split_frames": True} if case.get("split_frames") else {}
+    P = api("simulate", m.simulate, db, span, method="first_order", deviation=dev, **fsf)
     pP = sd.Paths(P, spec, start, -Lmax, T - 1)
     scale = 1.0 + _maxabs(pP, spec)
     tol = 1e-8 * scale
@@ -260,7 +265,7 @@ def _check(case):
 
     # ---- 5. levels = steady (+|*) deviations --------------------------------
     db2 = make_db(not dev)
-    P2 = api("simulate_other_mode", m.simulate, db2, span, method="first_order", deviation=not dev)
+    P2 = api("simulate_other_mode", m.simulate, db2, span, method="first_order", deviation=not dev, **fsf)
     p2 = sd.Paths(P2, spec, start, -Lmax, T - 1)
     lev, dv = (p2, pP) if dev else (pP, p2)
     allnames = [(nm, xs[j]) for j, nm in enumerate(spec["names"])] + [(nm, ys[k]) for k, nm in enumerate(lm.meas_names(spec))]
@@ -275,7 +280,7 @@ def _check(case):
                   lambda: f"{nm}: level path differs from steady combined with deviation path by {worst:.3e}\n{lm.source(spec)}")
 
     # ---- 7. the same call repeated at the end of the history gives the same path ---------
-    P_again = api("simulate_again", m.simulate, make_db(dev), span, method="first_order", deviation=dev)
+    P_again = api("simulate_again", m.simulate, make_db(dev), span, method="first_order", deviation=dev, **fsf)
     pA = sd.Paths(P_again, spec, start, -Lmax, T - 1)
     for nm in spec["names"] + lm.meas_names(spec):
         col.check(bool(np.array_equal(pA.arr(nm), pP.arr(nm), equal_nan=True)), "history:repeated_call_differs",
